@@ -35,6 +35,11 @@ def _strip_extras(p):
 
 
 def run(ctx):
+    check_get_av(ctx)
+    check_state(ctx)
+
+
+def check_get_av(ctx):
     repo = ctx.repo
     ci = repo.cls('extinction.extinction', 'Extinction')
     g = ctx.fn(repo.func('extinction.extinction', 'Extinction.get_av'))
@@ -113,6 +118,11 @@ def run(ctx):
             ctx.expect(not missing, 'EFF-4', 'cached %s is invalidated when the table changes' % attr, loc(g), 'both setters reset self.%s' % attr,
                        'get_av remembers self.%s but the %s setter does not reset it: after the table is changed get_av keeps using the old normalisation' % (attr, '/'.join(missing)), 'stale-cache')
 
+
+
+def check_state(ctx):
+    repo = ctx.repo
+    ci = repo.cls('extinction.extinction', 'Extinction')
     # ---- AGREE-1
     pickle_state_agreement(ctx, ci)
     tt = ctx.fn(repo.func('extinction.extinction', 'Extinction.to_table'))
